@@ -195,6 +195,33 @@ def b_checksum_detects_any_change(g, spec):
     return "altered content was delivered"
 
 
+def b_corrupt_in_set(g, nmsgs, which):
+    """a set of complete messages in which message `which` carries arbitrary bytes in its checksummed region (stored
+    checksum no longer matching): iteration yields the intact messages before it, then raises ChecksumError -- it must not
+    be mistaken for a truncated tail"""
+    entries = []
+    for i in range(nmsgs):
+        enc = ref.encode_message(i % 2, 0, _bytes(g, "1", "k"), _bytes(g, "2", "v"), g.int(*I64) if i % 2 == 1 else None)
+        if i == which:
+            alt = g.bytes(len(enc) - 4, "alt")
+            (stored,) = struct.unpack(">I", enc[0:4])
+            if stored == (zlib.crc32(alt) & 0xFFFFFFFF):
+                g.assume(False)
+                return ""
+            enc = enc[0:4] + alt
+        entries.append((100 + i, enc))
+    data = ref.encode_message_set(entries)
+    got = []
+    try:
+        for om in KafkaCodec._decode_message_set_iter(data):
+            got.append(om)
+    except ChecksumError:
+        return "" if len(got) == which else "ChecksumError after %d messages, %d precede the corrupt one" % (len(got), which)
+    except Exception as e:  # noqa
+        return "corrupt message %d of %d raised %s" % (which, nmsgs, type(e).__name__)
+    return "corrupt message %d of %d was skipped or delivered silently (%d messages yielded, no ChecksumError)" % (which, nmsgs, len(got))
+
+
 # ------------------------------------------------------------------ (3) truncation
 
 
@@ -473,6 +500,8 @@ def obligations(tier):
 
     for n in (14, 16) if q else (14, 16, 18, 22):
         add("checksum-first arbitrary %d-byte message" % n, "b_checksum_first", timeout=150, n=n)
+    for nm, which in [(1, 0), (2, 0), (2, 1), (3, 2)] + ([] if q else [(3, 1), (3, 0)]):
+        add("corrupt message %d of %d in a complete set" % (which, nm), "b_corrupt_in_set", timeout=150, nmsgs=nm, which=which)
     tspecs = [[(0, "n", "1")], [(1, "1", "e"), (0, "e", "n")]] + ([] if q else [[(0, "2", "1"), (1, "n", "2"), (0, "e", "e")]])
     for spec in tspecs:
         add("truncation %r" % (spec,), "b_truncation", timeout=150, spec=spec)
